@@ -675,6 +675,9 @@ func c05Run(c *core.Ctx, idx int) {
 	}
 	SpiceNoHuge = true
 	defer func() { SpiceNoHuge = false }()
+	if SpiceErrs(uint64(c.Seed), idx, base) {
+		c.Count("trees.with-left-over-errors")
+	}
 	if sp := core.NewRng(core.Mix(uint64(c.Seed)+0x5b1ce, uint64(idx))); !condRoot && sp.Chance(1, 6) {
 		// (own PRNG stream, so that the rest of the case is what it was without this step)
 		if did := Spice(sp, base, sp.Chance(1, 2), sp.Chance(1, 2), sp.Chance(1, 2)); did != "" {
@@ -790,6 +793,7 @@ func flatJSON(n *TNode) string {
 		// presentation settings are not among the differences the statement obliges IsEqual to report
 		x.Sym, x.Paren, x.Fold, x.NoPad, x.LeadOnce, x.Delim, x.Enc, x.Neg, x.Fwd = "", false, false, false, false, "", nil, false, false
 		x.Shared, x.Mutex = false, false // (how many positions hold one instance is no difference of content either)
+		x.LeftErr = false                // (nor is an error some earlier call left behind)
 	})
 	return core.JSON(c)
 }
